@@ -1107,7 +1107,8 @@ class Interp:
         ctx = self.ctx
         name = '%s/loop#%s' % (frame.func.qual, self.loop_ordinal(st, frame))
         env = LoopEnv(self, frame)
-        for g, v in (spec.ghost_init or {}).items():
+        ginit = spec.ghost_init(env) if callable(spec.ghost_init) else (spec.ghost_init or {})
+        for g, v in ginit.items():
             ctx.ghost[g] = v
         if spec.lemmas is not None:
             from .verify import discharge
@@ -1122,12 +1123,16 @@ class Interp:
                 from .verify import _EXPLORE_ONLY
                 if _EXPLORE_ONLY['on']:
                     continue
+                if getattr(ctx, 'prefer', None):
+                    ob.meta['prefer'] = ctx.prefer
+                if getattr(ctx, 'cli_timeout_s', None):
+                    ob.meta['cli_timeout_s'] = ctx.cli_timeout_s
                 discharge(ob)
                 if ob.status == 'unsat' and is_sym(lf):
                     ctx.pc.append(lf)
-        ctx.prove(name + '/inv-init', spec.inv(env), 'inv-init')
+        self._prove_inv(name + '/inv-init', spec.inv(env), 'inv-init', pop=True)
         which = ctx.choose(2, name)
-        for g, v in (spec.ghost_init or {}).items():
+        for g, v in ginit.items():
             ctx.ghost[g] = self.havoc_like(v, 'ghost_' + g)
         # havoc everything the loop assigns
         mods = self.assigned_names(st.body)
@@ -1156,7 +1161,7 @@ class Interp:
                 raise Unsupported('loop mutates %s (a %s) -- needs an abstract container for a cut-point loop' % (nm, type(obj).__name__))
         if spec.havoc is not None:
             spec.havoc(env)
-        ctx.assume(spec.inv(env))
+        ctx.assume(self._inv_formula(spec.inv(env)))
         if which == 1:
             c = cond()
             ctx.assume(sym.truthy(c))
@@ -1175,7 +1180,9 @@ class Interp:
                 step[1]()
             if spec.ghost_step is not None:
                 ctx.ghost.update(spec.ghost_step(env))
-            ctx.prove(name + '/inv-keep', spec.inv(env), 'inv-keep')
+            if spec.keep_lemmas is not None:
+                self._prove_inv(name + '/keep-lemma', [('lemma:' + n, f) for n, f in spec.keep_lemmas(env)], 'lemma')
+            self._prove_inv(name + '/inv-keep', spec.inv(env), 'inv-keep')
             if variant0 is not None:
                 v1 = spec.decreases(env)
                 ctx.prove(name + '/term', sym.And(sym.ge(variant0, 0) if not spec.variant_real else sym.ge(variant0, 0),
@@ -1185,6 +1192,37 @@ class Interp:
             c = cond()
             ctx.assume(sym.Not(sym.truthy(c)))
             self.exec_block(st.orelse, frame)
+
+    @staticmethod
+    def _inv_formula(inv):
+        if isinstance(inv, (list, tuple)):
+            return sym.And(*[f for _, f in inv])
+        return inv
+
+    def _prove_inv(self, name, inv, kind, pop=False):
+        """an invariant given as a list of named conjuncts is proved conjunct by conjunct, each proved conjunct being
+        available to the following ones (staged); a single formula is one obligation"""
+        ctx = self.ctx
+        if not isinstance(inv, (list, tuple)):
+            ctx.prove(name, inv, kind)
+            return
+        from .verify import discharge, _EXPLORE_ONLY
+        n0 = len(ctx.pc)
+        for cn, f in inv:
+            k = 'lemma' if cn.startswith('lemma:') else kind
+            ctx.prove('%s:%s' % (name, cn[6:] if cn.startswith('lemma:') else cn), f, k)
+            ob = ctx.obligations[-1]
+            if _EXPLORE_ONLY['on']:
+                continue
+            if getattr(ctx, 'prefer', None):
+                ob.meta['prefer'] = ctx.prefer
+            if getattr(ctx, 'cli_timeout_s', None):
+                ob.meta['cli_timeout_s'] = ctx.cli_timeout_s
+            discharge(ob)
+            if ob.status == 'unsat' and is_sym(f):
+                ctx.pc.append(f)
+        if pop:
+            del ctx.pc[n0:]
 
     def havoc_like(self, v, name):
         ctx = self.ctx
@@ -1713,7 +1751,9 @@ class LoopEnv:
 
 class LoopSpec:
     def __init__(self, inv, decreases=None, havoc=None, variant_real=False, variant_step=1,
-                 ghost_init=None, ghost_step=None, modifies=None, lemmas=None):
+                 ghost_init=None, ghost_step=None, modifies=None, lemmas=None, keep_lemmas=None):
+        # keep_lemmas: lambda env -> [(name, formula)] proved (staged) at the end of the loop body, before the invariant
+        self.keep_lemmas = keep_lemmas
         # lemmas: lambda env -> [(name, formula)] proved one after the other at loop entry; each proved lemma is
         # available to the following ones and to inv-init (a lemma that cannot be proved is simply not used)
         self.lemmas = lemmas
